@@ -406,7 +406,11 @@ Definition cstep (s : cstate) (x : cev) : option cstate :=
     | PIdle, S c => Some (feedA (set_cnt s c) ECall)
     | _, _ => None
     end
-  | XPause => Some (set_ep (feedA s EPause) (ep_pause (cEp s)))
+  | XPause =>                                   (* a new pause begins at least one sleep after the last resume *)
+    match cEp s with
+    | EpResumed _ _ => None
+    | _ => Some (set_ep (feedA s EPause) (ep_pause (cEp s)))
+    end
   | XResume =>
     match cEp s with
     | EpPausing e => if our_pausing s then Some (set_ep (feedA s EResume) (EpResumed e O)) else None
@@ -430,3 +434,174 @@ Definition cinit : cstate :=
   mkC (rinit nat) O (match n with O => CSDone | _ => CSGate O end) O (rinit wline) [] false false EpNone.
 
 End Compose.
+
+(* ---------- (c') the same composition with the two readers replaced by what the reader theorems say
+   about them: the peer's reader is idle or blocked with t ticks left (a keep-alive re-arms it, a DATA
+   frame completes it and is acknowledged at once, t = 0 is the timeout error); our ack reader is idle,
+   in the pausing loop, or blocked (an ack completes it).  [xBad] records any error. ---------- *)
+
+Inductive aph := AIdle | AGate (j : nat) | ARead.
+Inductive rph := RIdle | RRead (t : nat).
+
+Record ast := mkA {
+  xPausing : bool; xA : aph; xAq : nat; xAcked : nat; xS : csph; xCnt : nat;
+  xR : rph; xRq : list wline; xDeliv : list nat; xBad : bool; xEp : epi }.
+
+Fixpoint first_data (q : list wline) : option (nat * list wline) :=
+  match q with
+  | [] => None
+  | WLKeep :: q' => first_data q'
+  | WLData k :: q' => Some (k, q')
+  end.
+
+Section Abstract.
+Variable cf : cfg.
+Variable n : nat.
+Variable W : nat.
+Variable P : nat.
+
+(* an ack line reaches our side *)
+Definition x_ack (a : ast) : ast :=
+  match xA a with
+  | ARead => mkA (xPausing a) AIdle (xAq a) (S (xAcked a)) (xS a) (xCnt a) (xR a) (xRq a) (xDeliv a) (xBad a) (xEp a)
+  | _ => mkA (xPausing a) (xA a) (S (xAq a)) (xAcked a) (xS a) (xCnt a) (xR a) (xRq a) (xDeliv a) (xBad a) (xEp a)
+  end.
+
+(* the peer's reader returns frame k: delivered and acknowledged *)
+Definition x_deliver (a : ast) (r : rph) (q : list wline) (k : nat) : ast :=
+  x_ack (mkA (xPausing a) (xA a) (xAq a) (xAcked a) (xS a) (xCnt a) r q (xDeliv a ++ [k]) (xBad a) (xEp a)).
+
+Definition x_setR (a : ast) (r : rph) (q : list wline) : ast :=
+  mkA (xPausing a) (xA a) (xAq a) (xAcked a) (xS a) (xCnt a) r q (xDeliv a) (xBad a) (xEp a).
+
+(* a line from our sender reaches the peer *)
+Definition x_rarrive (a : ast) (l : wline) : ast :=
+  match xR a with
+  | RIdle => x_setR a RIdle (xRq a ++ [l])
+  | RRead _ =>
+    match l with
+    | WLKeep => x_setR a (RRead (cT cf)) (xRq a)
+    | WLData k => x_deliver a RIdle (xRq a) k
+    end
+  end.
+
+(* the peer calls recvCheckV2 *)
+Definition x_rcall (a : ast) : ast :=
+  match first_data (xRq a) with
+  | None => x_setR a (RRead (cT cf)) []
+  | Some (k, q') => x_deliver a RIdle q' k
+  end.
+
+Definition x_setA (a : ast) (p : aph) (q acked : nat) : ast :=
+  mkA (xPausing a) p q acked (xS a) (xCnt a) (xR a) (xRq a) (xDeliv a) (xBad a) (xEp a).
+
+(* our ack reader leaves (or skips) the pausing loop and reads *)
+Definition x_aread (a : ast) : ast :=
+  match xAq a with
+  | S q => x_setA a AIdle q (S (xAcked a))
+  | O => x_setA a ARead O (xAcked a)
+  end.
+Definition x_acall (a : ast) : ast :=
+  if xPausing a then x_setA a (AGate (cSL cf)) (xAq a) (xAcked a) else x_aread a.
+
+Definition x_setS (a : ast) (p : csph) : ast :=
+  mkA (xPausing a) (xA a) (xAq a) (xAcked a) p (xCnt a) (xR a) (xRq a) (xDeliv a) (xBad a) (xEp a).
+Definition x_setCnt (a : ast) (c : nat) : ast :=
+  mkA (xPausing a) (xA a) (xAq a) (xAcked a) (xS a) c (xR a) (xRq a) (xDeliv a) (xBad a) (xEp a).
+Definition x_bad (a : ast) : ast :=
+  mkA (xPausing a) (xA a) (xAq a) (xAcked a) (xS a) (xCnt a) (xR a) (xRq a) (xDeliv a) true (xEp a).
+Definition x_flags (a : ast) (pa : bool) (e : epi) : ast :=
+  mkA pa (xA a) (xAq a) (xAcked a) (xS a) (xCnt a) (xR a) (xRq a) (xDeliv a) (xBad a) e.
+
+(* checkStopAndPause from its loop condition, for frame k *)
+Definition x_gate (a : ast) (k : nat) : ast :=
+  if xPausing a then x_rarrive (x_setS a (CSIn k (SSleep (cGL cf)))) WLKeep
+  else x_setS a (CSIn k SPassed).
+
+Definition x_live (a : ast) : bool := (length (xDeliv a) <? n)%nat.
+
+Definition x_quiescent (a : ast) : bool :=
+  match xS a with
+  | CSGate _ => false
+  | CSIn _ SPassed => false
+  | CSIn _ SIdle => false
+  | CSIn _ (SSleep _) => true
+  | CSPush _ => (W <=? xCnt a)%nat
+  | CSDone => true
+  end
+  && negb (match xR a with RIdle => x_live a | _ => false end)
+  && negb (match xA a with AIdle => (0 <? xCnt a)%nat | _ => false end).
+
+Definition x_tickR (a : ast) : ast :=
+  match xR a with
+  | RIdle => a
+  | RRead (S (S t)) => x_setR a (RRead (S t)) (xRq a)
+  | RRead _ => x_bad a                                  (* the peer's reader times out *)
+  end.
+Definition x_tickA (a : ast) : ast :=
+  match xA a with
+  | AIdle => a
+  | AGate (S (S j)) => x_setA a (AGate (S j)) (xAq a) (xAcked a)
+  | AGate _ => x_acall a
+  | ARead => x_bad a                                    (* not followed further: never happens *)
+  end.
+Definition x_tickS (a : ast) : ast :=
+  match xS a with
+  | CSIn k (SSleep (S (S j))) => x_setS a (CSIn k (SSleep (S j)))
+  | CSIn k (SSleep _) => x_gate a k
+  | _ => a
+  end.
+
+Definition astep (a : ast) (x : cev) : option ast :=
+  match x with
+  | XSCall => match xS a with CSGate k => Some (x_gate a k) | _ => None end
+  | XSWrite => match xS a with CSIn k SPassed => Some (x_rarrive (x_setS a (CSPush k)) (WLData k)) | _ => None end
+  | XSPush =>
+    match xS a with
+    | CSPush k =>
+      if (xCnt a <? W)%nat
+      then Some (x_setS (x_setCnt a (S (xCnt a))) (if (S k <? n)%nat then CSGate (S k) else CSDone))
+      else None
+    | _ => None
+    end
+  | XRCall => match xR a with RIdle => if x_live a then Some (x_rcall a) else None | _ => None end
+  | XATake =>
+    match xA a, xCnt a with
+    | AIdle, S c => Some (x_acall (x_setCnt a c))
+    | _, _ => None
+    end
+  | XPause =>
+    match xEp a with
+    | EpResumed _ _ => None
+    | e => Some (x_flags a true (ep_pause e))
+    end
+  | XResume =>
+    match xEp a with
+    | EpPausing e => if xPausing a then Some (x_flags a false (EpResumed e O)) else None
+    | _ => None
+    end
+  | XTick =>
+    if x_quiescent a && (match xEp a with EpPausing e => (e <? P)%nat | _ => true end) then
+      let a3 := x_tickS (x_tickA (x_tickR a)) in
+      Some (x_flags a3 (xPausing a3) (ep_tick cf (xEp a)))
+    else None
+  end.
+
+Fixpoint arun (a : ast) (xs : list cev) : option ast :=
+  match xs with
+  | [] => Some a
+  | x :: xs' => match astep a x with Some a' => arun a' xs' | None => None end
+  end.
+
+Definition ainit : ast :=
+  mkA false AIdle O O (match n with O => CSDone | _ => CSGate O end) O RIdle [] [] false EpNone.
+
+(* the abstraction of a concrete state (used to compare the two machines) *)
+Definition abs_of (s : cstate) : ast :=
+  mkA (pausing (core (cA s)))
+      (match ph (cA s) with PIdle => AIdle | PGate _ j => AGate j | PRead _ => ARead end)
+      (length (queue (cA s))) (cAcked s) (cS s) (cCnt s)
+      (match ph (cR s) with PRead _ => RRead (match tmo (core (cR s)) with Some t => t | None => O end) | _ => RIdle end)
+      (queue (cR s)) (cDeliv s) (cErrA s || cErrR s) (cEp s).
+
+End Abstract.
